@@ -70,6 +70,7 @@ remaining iterations, the inner `for bit in 0..8` unrolled, `break 'byte_loop` l
 theorem T16_fn_prefix_len (a b : List Nat) (ha : a.length = 32) (hb : b.length = 32) :
     GenFn.prefix_len a b = some (BitOps.prefixLen a b) := GenFnCheck.prefix_len_eq a b ha hb
 
+set_option maxRecDepth 65536 in
 example : GenFn.prefix_len (List.replicate 32 0) (List.replicate 31 0 ++ [1]) = some 255 ∧
     GenFn.prefix_len (0x80 :: List.replicate 31 0) (List.replicate 32 0) = some 0 ∧
     GenFn.prefix_len (List.replicate 31 0) (List.replicate 32 0) = none := by decide
